@@ -152,6 +152,7 @@ class VirtualClock:
         self.nsleep = 0
 
     def time(self):
+        self.settle()
         t = self.now.value
         self.rec.readings.append(t)
         return t
@@ -165,7 +166,7 @@ class VirtualClock:
         self.settle()
 
     def due(self, t):
-        return sum(1 for times in self.plan.values() for x in times if self.start + x <= t + 1e-12)
+        return sum(1 for times in self.plan.values() for x in times if self.start + x <= t)
 
     def settle(self, limit=20.0):
         t = self.now.value
@@ -176,7 +177,7 @@ class VirtualClock:
         # workers whose every batch is due exit right after the last one
         for w, p in enumerate(self.rec.procs):
             times = self.plan.get(w, [])
-            if all(self.start + x <= t + 1e-12 for x in times):
+            if all(self.start + x <= t for x in times):
                 while p.is_alive() and _time.monotonic() < deadline:
                     _time.sleep(0.002)
 
@@ -197,7 +198,7 @@ class _DelayList:
         self._i += 1
         if self._vclock is not None:
             due = self._vclock.start + (self._vtimes[i] if i < len(self._vtimes) else 1e18)
-            while self._vclock.now.value + 1e-12 < due:
+            while self._vclock.now.value < due:
                 _time.sleep(0.001)
         elif self._delays:
             d = self._delays[i] if i < len(self._delays) else 0.0
